@@ -6,6 +6,23 @@ ALL = ["C%02d" % i for i in range(1, 21)]
 
 # id -> (technique, level text, level note, design ref)
 CHECKS = {
+ "C05": ("exhaustive enumeration (all 2^32 VarInt values in thorough; group-alphabet VarLong; all byte strings <=3 over 256 values and longer ones over a 6-symbol alphabet) on the real encoder/decoder against a bit-at-a-time LEB128 reference",
+         "Encoder: WriteToBytes/WriteTo bytes equal the minimal LEB128 reference and Len() equals both counts; decoder: value, n and bytes consumed are exact with the tail untouched, never more than 5/10 bytes consumed, continuation runs of cap length are errors; from a ByteReader and from a plain io.Reader.",
+         "Trusted: ref/refwire (self-tested on the protocol tables). VarLong's 2^64 values cannot be enumerated: 7-bit-group alphabets are the stated bound. Non-minimal encodings, overflow bits in the last group and truncated streams are unspecified.",
+         "DESIGN.md §2 C05"),
+ "C06": ("bounded exhaustive enumeration of 671 field shapes (every exported field type, combinators nested to depth 3) x boundary alphabets x all prior states of the destination (history dimension) on the real codecs against reference wire layouts",
+         "Wire bytes equal ref/refwire's layout, WriteTo n equals bytes produced, ReadFrom n equals bytes consumed with a sentinel tail intact, decoded equals written independent of what the destination held before (zero, every other alphabet value, nil/shorter/longer/spare-capacity slices at every nesting level); Marshal/Builder/Packet.Scan over all field lists <=3.",
+         "Trusted: ref/refwire, ref/refnbt. Byte counts on error paths, Option.Val when absent, NBT-into-held-any type hints are unspecified. Only well-formed encodings are decoded here (malformed input is C08).",
+         "DESIGN.md §2 C06"),
+ "C07": ("bounded exhaustive enumeration of (id, threshold, payload length, content class) around every boundary, frame streams <=3 over an 8-frame alphabet + a 50-frame chain, Conn threshold histories, and 817 hand-built malformed frames, judged by an independent frame reader (compress/zlib only)",
+         "Every emitted frame must parse as a conformant frame (VarInt total length; data length 0+plain or true size >= threshold + zlib stream inflating to exactly id+payload); UnPack with the same threshold returns the same id/payload from fresh and reused receivers and consumes exactly one frame; streams come back in order; malformed headers (negative, > 2^21, non-zero below threshold, shorter than the id) give an error, never a panic.",
+         "Trusted: ref/refframe (self-tested on a hand-assembled stored-block frame). Pool hand-out order is the natural one here (pool choices are explored in C20). id+payload > 2 MiB and frames with bytes after the zlib stream are unspecified.",
+         "DESIGN.md §2 C07"),
+ "C20": ("stateless model checking of the real code under a hand-written controlled scheduler: go-mc files that synchronise are compiled against a sync shim by a mechanical overlay, every sync/pool/map operation is a scheduling point, all schedules within a preemption+deviation bound are executed (iterative context bounding), histories judged by porcupine against a FIFO-with-close model plus exactly-once/order/capacity invariants; scheduler litmus suite; separate free-running -race pass",
+         "For 16 scenarios (LinkedListQueue and ChannelQueue with 1-3 producers, 1-2 consumers and a closer incl. consumers blocked before the first push and close racing blocked consumers; close-after-consumers variants that expose lost wake-ups; 2-3 threads Pack/UnPack through the shared pools with pool hand-out as an environment choice; concurrent NBT type-cache use; PlayerList join/leave/sample at capacity 1 and 2) every schedule with <=2 (thorough 3) preemptions/deviations is run to completion: no deadlock, exactly-once delivery, producer order, linearizable FIFO-with-close history, no foreign bytes, Len() <= capacity.",
+         "Assumes sequential consistency and that shared data is only touched between sync operations (validated, by sampling only, by the free-running -race pass of the same bodies). ChannelQueue is interleaved at method level (each method is one channel operation). The shim (shim/vsync) is a model of package sync: five litmus queues (1 correct, 4 broken) must be classified correctly on every run or the check aborts with a harness error.",
+         "DESIGN.md §1.3, §2 C20"),
+
  "C01": ("bounded exhaustive enumeration of documents (all trees <=N nodes over the tag grammar) and of a reflect-built Go type/value universe on the real codec, judged by an independent NBT reader and an independent implementation of the documented mapping",
          "Decode: every tree x 5 targets x 4 formats x 3 trailing streams x 2 source kinds must yield the format's values, the root name, and leave exactly the trailing bytes unread. Encode: every (type,value) x {file,network} x {value,pointer}: accepted values must produce one well-formed document equal to the documented mapping. Exhaustive within the stated node/depth bounds.",
          "Trusted: ref/refnbt, checks/nbtgo.ToTree (self-tested). Unspecified (executed, not judged): duplicate keys, nil pointers/interfaces, []bool, slices of interfaces/pointers, Go int/uint. Hand-written catalogue for embedding rules.",
